@@ -62,7 +62,15 @@
                                            grid placement lines; in particular AbsBlind holds for ab = "box-generating, absolute, on lines
                                            (r, c)", for every r, c (auto / auto included)
      C06_grid_engine_instance              hence the conclusion of C06_abs_blind_engine for every engine of grid containers and leaves, for
-                                           the absolute nodes of any one line class *)
+                                           the absolute nodes of any one line class
+   KEYED engine theorem (Proofs/EngineAbsKey.v: Proofs/EngineAbs.v with a `key` = what a parent may read of an out-of-flow child's style):
+     C06_abs_blind_engine_keyed            for every algorithm that is AbsBlindK: trees that coincide up to oeq / leq outside the subtrees of
+                                           out-of-flow nodes WHOSE KEYS AGREE stay so through any evaluation; AbsBlind implies AbsBlindK
+     C06_grid_algorithm_abs_blind_keyed    the grid algorithm is AbsBlindK for ALL box-generating absolute children, key = (grid_row, grid_column)
+     C06_taffy_engine_instance             hence, for every engine whose nodes are block, flex, grid containers or leaves (every kind
+                                           TaffyView::compute_child_layout dispatches on): replacing the subtree and the style of box-generating
+                                           absolute nodes by anything absolute with the same grid lines changes nothing outside those subtrees but
+                                           content sizes -- C06 for all of taffy, up to exactly the known finding (the lines) *)
 From Coq Require Import List Bool Arith NArith ZArith Lia.
 From TV Require Import Num.Num Gen.BlockGen Model.Block Model.BlockLeaf Model.BlockTree Proofs.BlockBlind.
 From TV Require Import Model.FiltersBase Gen.FiltersGen Model.ItemFilters Proofs.ItemFiltersBase Proofs.ItemFiltersAbs Model.BlockAlg Proofs.BlockAlgBlind.
@@ -442,6 +450,72 @@ Proof.
   - apply grid_leaf_algo_abs_blind_lines.
 Qed.
 
+(* ---------------------------------------------------------------------------------------------- keyed by the grid lines: all node kinds *)
+From TV Require Proofs.EngineAbsKey.
+
+(* the engine theorem with a KEY: `key s` is what a parent may read of an out-of-flow child's style.  AbsBlindK: on child-style lists that
+   agree except at out-of-flow positions, where both sides are out of flow and have the same key, the resumptions are ABis-bisimilar.
+   asim (keyed): the trees coincide up to oeq / leq outside the subtrees of out-of-flow nodes, whose keys agree.  With a constant key this
+   is C06_abs_blind_engine; AbsBlind implies AbsBlindK for every key. *)
+Theorem C06_abs_blind_engine_keyed :
+  forall (S In Out Lay K : Type) (mode : In -> Engine.RunMode) (in_eqb : In -> In -> bool) (is_none : S -> bool)
+         (hidden_out : Out) (zero_lay : Lay) (algo : S -> list S -> In -> Alg In Out Lay)
+         (ab : S -> bool) (key : S -> K) (oeq : Out -> Out -> Prop) (leq : Lay -> Lay -> Prop),
+    (forall o, oeq o o) -> (forall l, leq l l) ->
+    (EngineAbsKey.AbsBlindK S In Out Lay algo ab K key oeq leq ->
+     forall f f' t t' i o t1 o' t1',
+       EngineAbsKey.asim S In Out Lay ab K key oeq leq t t' ->
+       memo S In Out Lay mode in_eqb is_none hidden_out zero_lay algo f t i = Some (o, t1) ->
+       memo S In Out Lay mode in_eqb is_none hidden_out zero_lay algo f' t' i = Some (o', t1') ->
+       EngineAbsKey.asim S In Out Lay ab K key oeq leq t1 t1' /\ (ab (style_of S In Out Lay t) = false -> oeq o o')) /\
+    (AbsBlind S In Out Lay algo ab oeq leq -> EngineAbsKey.AbsBlindK S In Out Lay algo ab K key oeq leq) /\
+    (forall t, EngineAbsKey.asim S In Out Lay ab K key oeq leq t t) /\
+    (* read pointwise: along a path without out-of-flow nodes both trees have a node, same style, leq stored layouts *)
+    (forall p t t' u, EngineAbsKey.asim S In Out Lay ab K key oeq leq t t' -> EngineAbsKey.in_flow_path S In Out Lay ab t p ->
+       subtree S In Out Lay t p = Some u ->
+       exists u', subtree S In Out Lay t' p = Some u' /\ leq (lay_of S In Out Lay u) (lay_of S In Out Lay u') /\
+                  style_of S In Out Lay u' = style_of S In Out Lay u).
+Proof.
+  intros S In Out Lay K mode in_eqb is_none hidden_out zero_lay algo ab key oeq leq Ho Hl. split; [|split; [|split]].
+  - intros HB f f' t t' i o t1 o' t1' H E E'.
+    eapply (EngineAbsKey.memo_asimK S In Out Lay mode in_eqb is_none hidden_out zero_lay algo ab K key oeq leq Ho Hl HB f f'); eauto.
+  - apply EngineAbsKey.AbsBlind_K.
+  - intros t. apply EngineAbsKey.asim_refl; assumption.
+  - intros p t t' u. apply EngineAbsKey.asim_at.
+Qed.
+
+(* the grid algorithm: AbsBlindK for ab = box-generating and position:absolute (ALL of them), key = (grid_row, grid_column) *)
+Theorem C06_grid_algorithm_abs_blind_keyed :
+  forall (T : Type) (N : Num T),
+    EngineAbsKey.AbsBlindK (GStyle T) (GIn T) (LayoutOutput T) (GLay T) grid_alg g_visible_absolute (PB.Ln PB.GP * PB.Ln PB.GP) g_lines gout_eq glay_eq.
+Proof. intros T N. apply grid_alg_abs_blind_keyed. Qed.
+
+(* engines made of block, flex and grid containers and leaves -- every kind of node TaffyView::compute_child_layout dispatches on: two trees
+   that coincide up to content_size outside the subtrees of box-generating absolute nodes, THESE NODES HAVING THE SAME grid_row / grid_column on
+   both sides, stay so through any pair of evaluations, and every node that is not itself such a node returns the same output up to
+   content_size.  (Only a grid parent reads the lines; the premise on them is what the known finding C06/grid-estimate-absolute costs.) *)
+Theorem C06_taffy_engine_instance :
+  forall (T : Type) (N : Num T) (is_grid : TStyle T -> bool) (kind : BFStyle T -> NodeKind) (pre : BStyle T -> BIn T -> BIn T)
+         (abs_child : @AbsChild T) (leaf : BFStyle T -> FIn T -> LayoutOutput T)
+         (mode : FIn T -> Engine.RunMode) (in_eqb : FIn T -> FIn T -> bool) (is_none : TStyle T -> bool)
+         (hidden_out : LayoutOutput T) (zero_lay : FLay T),
+    AbsChildLocal abs_child ->
+    let algo := taffy_algo is_grid kind pre abs_child leaf in
+    forall f f' t t' i o t1 o' t1',
+      EngineAbsKey.asim (TStyle T) (FIn T) (LayoutOutput T) (FLay T) t_visible_absolute _ t_lines fout_eq flay_eq t t' ->
+      memo (TStyle T) (FIn T) (LayoutOutput T) (FLay T) mode in_eqb is_none hidden_out zero_lay algo f t i = Some (o, t1) ->
+      memo (TStyle T) (FIn T) (LayoutOutput T) (FLay T) mode in_eqb is_none hidden_out zero_lay algo f' t' i = Some (o', t1') ->
+      EngineAbsKey.asim (TStyle T) (FIn T) (LayoutOutput T) (FLay T) t_visible_absolute _ t_lines fout_eq flay_eq t1 t1' /\
+      (t_visible_absolute (style_of (TStyle T) (FIn T) (LayoutOutput T) (FLay T) t) = false -> fout_eq o o').
+Proof.
+  intros T N is_grid kind pre abs_child leaf mode in_eqb is_none hidden_out zero_lay Hloc algo f f' t t' i o t1 o' t1' Hs E E'.
+  eapply (EngineAbsKey.memo_asimK (TStyle T) (FIn T) (LayoutOutput T) (FLay T) mode in_eqb is_none hidden_out zero_lay algo
+            t_visible_absolute _ t_lines fout_eq flay_eq); eauto.
+  - apply fout_eq_refl.
+  - apply flay_eq_refl.
+  - apply taffy_algo_abs_blind_keyed. exact Hloc.
+Qed.
+
 Print Assumptions C06_grid_never_placed.
 Print Assumptions C06_grid_estimate_absolute_refuted.
 Print Assumptions C06_grid_estimate_absolute_refuted_sibling.
@@ -464,3 +538,6 @@ Print Assumptions C06_blockflex_engine_instance.
 Print Assumptions C06_grid_algorithm_abs_blind_refuted.
 Print Assumptions C06_grid_algorithm_abs_blind_lines.
 Print Assumptions C06_grid_engine_instance.
+Print Assumptions C06_abs_blind_engine_keyed.
+Print Assumptions C06_grid_algorithm_abs_blind_keyed.
+Print Assumptions C06_taffy_engine_instance.
